@@ -138,6 +138,22 @@ Theorem C15_uvlist_exact :
 Proof. exact uvlist_exact. Qed.
 Print Assumptions C15_uvlist_exact.
 
+(* The glue classes add nothing but piecewise matching: SegmentedStringMatcher (without prefix matching) and
+   PathMatcher's clause loop accept iff there are as many '/'-pieces as matchers and each piece is matched
+   by its matcher (a "*" clause has no matcher and accepts anything). *)
+Theorem C15_seg_match_piecewise :
+  forall segs toks,
+    seg_match_aux segs toks false = true <-> Forall2 (fun m t => clause_ok1 m t = true) segs toks.
+Proof. exact seg_match_aux_exact. Qed.
+Print Assumptions C15_seg_match_piecewise.
+
+Theorem C15_path_clauses_piecewise :
+  forall ms toks,
+    clauses_match ms toks = true <->
+    (length ms <= length toks)%nat /\ Forall2 (fun m t => clause_ok1 m t = true) ms (firstn (length ms) toks).
+Proof. exact clauses_match_spec. Qed.
+Print Assumptions C15_path_clauses_piecewise.
+
 (* The laws of the client interface Pat/PatSpec.v hold for the model (used by C05). *)
 Theorem C15_model_laws :
   forall engine, (forall re, ere_compile re <> CUnsupported -> engine re = ere_engine re) ->
